@@ -165,8 +165,7 @@ def _mk_api(nops, tiers, timeout, first=None):
                     return False
             else:
                 _apply(c, op, arg)
-        if cap_at < nops:
-            return True
+        # with or without a capture block in the history: what was captured never reached the file, so it is not in the exports
         return exports_agree(c)
     return h
 
